@@ -63,6 +63,39 @@ func c06R3only(c *Ctx, r *Report, rule, prefix string) {
 	}
 }
 
+// c07HeaderOffset says where in the handshake message the parser's input starts: 0 when the parser itself skips
+// the 4-byte message header (type and uint24 length) as crypto/tls's unmarshal does, 4 when its first read is
+// something else - then the caller has to hand it the message without the header, which the evaluations of Match
+// (C07.R2, C07.R14) demand in that case.
+func c07HeaderOffset(c *Ctx) int {
+	fn := c.Fn("modules/l4tls.parseRawClientHello")
+	if fn == nil {
+		return 0
+	}
+	for _, b := range fn.Blocks {
+		for _, ins := range b.Instrs {
+			call, ok := ins.(ssa.CallInstruction)
+			if !ok {
+				continue
+			}
+			callee := call.Common().StaticCallee()
+			if callee == nil || callee.Pkg == nil || !strings.HasSuffix(callee.Pkg.Pkg.Path(), "cryptobyte") {
+				continue
+			}
+			if !strings.HasPrefix(callee.Name(), "Read") && callee.Name() != "Skip" {
+				continue
+			}
+			if callee.Name() == "Skip" && len(call.Common().Args) == 2 {
+				if k, ok := call.Common().Args[1].(*ssa.Const); ok && k.Value != nil && k.Int64() == 4 {
+					return 0
+				}
+			}
+			return 4
+		}
+	}
+	return 0
+}
+
 func c07R12(c *Ctx, r *Report) {
 	r.rule("C07.R1", "record gate (evaluation of Match on fixed first messages, reads served from the message): a record whose type byte is not 22 answers (false, nil) after the 5 header bytes and nothing else is read or parsed; a handshake record - whatever record-layer version it carries - is read and handed to the hello parser", 1)
 	r.rule("C07.R2", "length-exact read: for handshake records announcing 5, 256 and 0x1234 body bytes (trailing bytes present) exactly 5 + that many bytes are consumed and exactly the body is handed to the hello parser; a body that is not complete yet answers 'need more'", 1)
@@ -76,6 +109,10 @@ func c07R12(c *Ctx, r *Report) {
 		b := []byte{typ, 3, 1, byte(n >> 8), byte(n)}
 		for i := 0; i < have; i++ {
 			b = append(b, byte(i*7+1))
+		}
+		if n >= 4 && have >= 4 {
+			// the record holds one handshake message: ClientHello, with its own length
+			b[5], b[6], b[7], b[8] = 1, byte((n-4)>>16), byte((n-4)>>8), byte(n-4)
 		}
 		return b
 	}
@@ -103,6 +140,7 @@ func c07R12(c *Ctx, r *Report) {
 		m[1], m[2] = ver[0], ver[1]
 		cases = append(cases, tc{fmt.Sprintf("handshake, record version {%02x,%02x}", ver[0], ver[1]), m, true, 40, true})
 	}
+	off := c07HeaderOffset(c)
 	var p1, p2 []string
 	for _, t := range cases {
 		mm := msgMatcher{fn: fnName, cfgName: "tls", heap: func(h map[string]SV) {
@@ -117,8 +155,8 @@ func c07R12(c *Ctx, r *Report) {
 			switch {
 			case strings.HasSuffix(callee, "l4tls.parseRawClientHello"):
 				if b, ok := concreteBytes(st, args[0]); ok {
-					parsed = len(b)
-					if 5+len(b) <= len(t.msg) && !bytes.Equal(b, t.msg[5:5+len(b)]) {
+					parsed = len(b) + off
+					if 5+off+len(b) <= len(t.msg) && !bytes.Equal(b, t.msg[5+off:5+off+len(b)]) {
 						parsedOK = false
 					}
 				} else {
@@ -156,6 +194,86 @@ func c07R12(c *Ctx, r *Report) {
 			}
 		}
 	}
+	// a hello spread over several records (RFC 8446 section 5.1; crypto/tls readHandshakeBytes puts the pieces together)
+	r.rule("C07.R14", "a hello spread over several records (evaluation of Match on a 40-byte ClientHello message cut into two or three handshake records at 1, 3, 4, 20 and 39 bytes): the hello parser is given the whole message - the record bodies joined, up to the length the message header announces - as crypto/tls (readHandshakeBytes) does; while a later record is missing or incomplete the answer is 'need more' and nothing is parsed; a record of another type in between answers (false, nil)", 1)
+	hello := make([]byte, 40)
+	for i := range hello {
+		hello[i] = byte(i*5 + 3)
+	}
+	hello[0], hello[1], hello[2], hello[3] = 1, 0, 0, 36
+	rec := func(typ byte, announced int, body []byte) []byte {
+		return append([]byte{typ, 3, 1, byte(announced >> 8), byte(announced)}, body...)
+	}
+	type fc struct {
+		name   string
+		msg    []byte
+		expect string // "parse", "more", "no"
+	}
+	var fcases []fc
+	for _, at := range []int{1, 3, 4, 20, 39} {
+		fcases = append(fcases, fc{fmt.Sprintf("two records, cut at %d", at), append(rec(22, at, hello[:at]), rec(22, 40-at, hello[at:])...), "parse"})
+	}
+	fcases = append(fcases,
+		fc{"three records, cut at 2 and 30", append(append(rec(22, 2, hello[:2]), rec(22, 28, hello[2:30])...), rec(22, 10, hello[30:])...), "parse"},
+		fc{"two records and trailing bytes", append(append(rec(22, 20, hello[:20]), rec(22, 20, hello[20:])...), 9, 9, 9), "parse"},
+		fc{"first of two records only", rec(22, 20, hello[:20]), "more"},
+		fc{"first record and 3 bytes of the next header", append(rec(22, 20, hello[:20]), 22, 3, 1), "more"},
+		fc{"first record and an incomplete second record", append(rec(22, 20, hello[:20]), rec(22, 20, hello[20:25])...), "more"},
+		fc{"first record, then an application data record", append(rec(22, 20, hello[:20]), rec(23, 20, hello[20:])...), "no"},
+		fc{"first record, then an alert record", append(rec(22, 3, hello[:3]), rec(21, 2, []byte{2, 40})...), "no"},
+	)
+	var p14 []string
+	for _, t := range fcases {
+		mm := msgMatcher{fn: fnName, cfgName: "tls", heap: func(h map[string]SV) {
+			h["m.matchers"] = symSlice("matchers", 0)
+			h["m.logger"] = symRef("logger", false)
+		}}
+		sc := msgScenario(c, mm, msgCase{name: t.name, msg: t.msg})
+		orig := sc.Call
+		parsed := "-"
+		sc.Call = func(callee string, args []SV, ev *symEval, st *symState) (SV, bool) {
+			switch {
+			case strings.HasSuffix(callee, "l4tls.parseRawClientHello"):
+				if b, ok := concreteBytes(st, args[0]); ok {
+					parsed = fmt.Sprintf("%x", b)
+				} else {
+					parsed = "?"
+				}
+				return SV{K: "struct", Desc: "chi"}, true
+			case strings.Contains(callee, "context.Context.Value"), strings.Contains(callee, "Replacer"):
+				return symRef("repl", false), true
+			}
+			return orig(callee, args, ev, st)
+		}
+		paths, err := evalPaths(fn, sc)
+		if err != nil || len(paths) != 1 {
+			p14 = append(p14, fmt.Sprintf("%s: undecided (%d paths, %v)", t.name, len(paths), err))
+			continue
+		}
+		ret := paths[0].retDesc()
+		switch t.expect {
+		case "parse":
+			if parsed == "-" {
+				p14 = append(p14, fmt.Sprintf("%s: the hello parser is not reached (answer %s)", t.name, ret))
+			} else if !strings.HasPrefix(parsed, fmt.Sprintf("%x", hello[off:])) {
+				what := fmt.Sprintf("%d bytes that are not the message", len(parsed)/2)
+				if strings.HasPrefix(fmt.Sprintf("%x", hello[off:]), parsed) {
+					what = fmt.Sprintf("its first %d bytes only (the first record's share)", len(parsed)/2+off)
+				}
+				p14 = append(p14, fmt.Sprintf("%s: the message is 40 bytes long by its own header, the hello parser is given %s - server name, ALPN and versions that lie beyond are not seen, while crypto/tls reads on", t.name, what))
+			}
+		case "more":
+			if parsed != "-" || !strings.Contains(ret, "ErrConsumedAllPrefetchedBytes") {
+				p14 = append(p14, fmt.Sprintf("%s: answer (%s), parser called: %v; the hello is incomplete, expected 'need more' without parsing", t.name, ret, parsed != "-"))
+			}
+		case "no":
+			if parsed != "-" || ret != "false, nil" {
+				p14 = append(p14, fmt.Sprintf("%s: answer (%s), parser called: %v; expected (false, nil) without parsing", t.name, ret, parsed != "-"))
+			}
+		}
+	}
+	r.check(len(p14) == 0, "C07.R14", fnName, "hello across records", c.pos(fn.Pos()), fmt.Sprintf("%d streams", len(fcases)), strings.Join(p14, "; "))
+
 	// sub-matchers: the verdict on a handshake record is the conjunction of the configured handshake matchers, each
 	// asked about the parsed hello, whose Conn is the connection being matched
 	r.rule("C07.R10", "handshake sub-matchers (evaluation of Match on a complete handshake record with 0..2 sub-matchers, every combination of their answers): the verdict is true iff every sub-matcher asked answers true, at least one is asked when configured, each is given the parsed hello, and that hello's Conn is the connection being matched", 1)
@@ -724,7 +842,12 @@ func c07R34(c *Ctx, r *Report) {
 		fmt.Println("REPO:", strings.Join(loopEffects(repoFn.Body, func(e ast.Expr) (int64, bool) { return 0, false }), " ; "))
 		fmt.Println("STD: ", strings.Join(loopEffects(stdUnmarshal.Body, func(e ast.Expr) (int64, bool) { return 0, false }), " ; "))
 	}
-	r.check(seqString(repo.prefix) == seqString(std.prefix), "C07.R3", fnName, "fixed part", pos, seqString(repo.prefix), fmt.Sprintf("the fixed part of the hello is framed differently from crypto/tls:\n  repo:       %s\n  crypto/tls: %s", seqString(repo.prefix), seqString(std.prefix)))
+	stdPrefix := std.prefix
+	if c07HeaderOffset(c) == 4 && len(stdPrefix) > 0 && stdPrefix[0].method == "Skip" && stdPrefix[0].arg == "4" {
+		// the message header is taken off by the caller (which C07.R2 and C07.R14 then demand of it)
+		stdPrefix = stdPrefix[1:]
+	}
+	r.check(seqString(repo.prefix) == seqString(stdPrefix), "C07.R3", fnName, "fixed part", pos, seqString(repo.prefix), fmt.Sprintf("the fixed part of the hello is framed differently from crypto/tls:\n  repo:       %s\n  crypto/tls: %s", seqString(repo.prefix), seqString(stdPrefix)))
 	var ids []int64
 	for id := range repo.cases {
 		ids = append(ids, id)
